@@ -389,6 +389,8 @@ pub fn plan(tier: Tier) -> Plan {
     }));
     p.must_be_nonzero = vec!["grid_files_opened".into(), "mutants_opened".into(), "unsafe_lint_passed".into(), "legacy_files_opened".into()];
     p.rule.push_str(super::seqread::RULE);
+    p.rule.push_str(super::seqread::RULE_CONCURRENT);
+    super::seqread::add_concurrent_unit(&mut p, super::seqread::Class::Panics);
     super::seqread::add_units(&mut p, super::seqread::Class::Panics, if tier.thorough() { 5 } else { 4 });
     p
 }
